@@ -63,6 +63,8 @@ fn main() {
             }
             c06::run(seed, &tier, shard);
         }
+        "C16" => c16::run(seed, &tier, shard),
+        "C16N" => c16::run_nesting(shard),
         "C12" => {
             if shard == 0 {
                 witness::run_witnesses("C12");
